@@ -4,7 +4,7 @@ from harness.oracles import all as ALL
 
 ID = 'C20'
 UNITS = ['io_delimited', 'io_wrappers']
-TRANSLATORS = []
+TRANSLATORS = ['iofuncs']
 NOT_COVERED = ('universal-newline translation of \\r by open(path), file encodings and file-system errors (Python runtime; sampled only); float() '
                'is abstract in the theorems (round-trip hypothesis conv (show x) = Some x, validated per sampled float, bit-identical); delimiter '
                'regexes other than c+ / single characters fail closed in the model')
